@@ -17,10 +17,11 @@ import textwrap
 SLICES = {}
 
 
-def register(target, ranges, params, drops):
+def register(target, ranges, params, drops, returns=None):
     """target: 'pkg.mod:func@name'; ranges: [(first_prefix, last_prefix)] -- prefixes of
-    the unparsed statement (``ast.unparse``), matched in the same block."""
-    SLICES[target] = {'ranges': ranges, 'params': params, 'drops': drops}
+    the unparsed statement (``ast.unparse``), matched in the same block.  ``returns``: name of a
+    local whose value the slice function returns (appended `return <name>`)."""
+    SLICES[target] = {'ranges': ranges, 'params': params, 'drops': drops, 'returns': returns}
 
 
 def _blocks(node):
@@ -57,6 +58,11 @@ def build(target, fn):
     stmts = []
     for first, last in d['ranges']:
         stmts.extend(_find(fdef, first, last))
+    if d.get('returns'):
+        ret = ast.parse('return %s' % d['returns']).body[0]
+        ast.copy_location(ret, stmts[-1])
+        ret.lineno = ret.end_lineno = stmts[-1].end_lineno
+        stmts = stmts + [ret]
     name = target.split('@')[1]
     args = ast.arguments(posonlyargs=[], args=[ast.arg(arg=p) for p in d['params']], vararg=None,
                          kwonlyargs=[], kw_defaults=[], kwarg=None, defaults=[])
